@@ -50,7 +50,7 @@ INVARIANTS %(invs)s
 %(extra)s
 CHECK_DEADLOCK FALSE
 """
-LAWS = ("TypeOK AllocationLaw WordsUnique DenotedAreWritten TemplateWordsLaw SectionsHaveBody "
+LAWS = ("TypeOK AllocationLaw WordsUnique DenotedAreWritten TemplateWordsLaw SectionsHaveBody HeadingsDenoted "
         "TitlesDenoted PlanRespected Emit")
 
 PIPE_CFG = """SPECIFICATION PSpec
@@ -277,6 +277,8 @@ def figure_reuse(case, r):
         elif k == "sec":
             items(b["xs"], in_table)
             items(b["body"], in_table)
+        elif k == "head":
+            items(b["xs"], in_table)
         elif k == "list":
             for ln in b["ls"]:
                 items(ln["xs"], in_table)
@@ -371,6 +373,39 @@ def name_rejection(case, r, run, v):
 
 
 # ----------------------------------------------------------------------------- the check
+BASE_KINDS = ["para", "list", "pre", "table", "fig", "gallery", "tpl"]
+
+
+def block_kind(b):
+    """(base kind, refined kind) of a block; figures are refined into floating / centred"""
+    k = b["b"]
+    if k == "fig":
+        return "fig", ("fig-center" if b["x"]["k"] == "center" else "fig-float")
+    return k, k
+
+
+def boundary_pairs(case):
+    """ordered pairs (last block of a section, first block of the next section) and ordered
+    pairs of adjacent figures occurring in a collection"""
+    sec_pairs, fig_pairs, fig_last = set(), set(), False
+    for art in case["arts"]:
+        flat = []
+        for b in art:
+            if b["b"] == "sec":                       # heading + body paragraph
+                flat.append({"b": "head"})
+                flat.append({"b": "para"})
+            else:
+                flat.append(b)
+        for k, b in enumerate(flat):
+            if b["b"] == "head" and 0 < k < len(flat) - 1 and flat[k - 1]["b"] != "head" and flat[k + 1]["b"] != "head":
+                sec_pairs.add((block_kind(flat[k - 1]), block_kind(flat[k + 1])))
+            if b["b"] == "fig" and k + 1 < len(flat) and flat[k + 1]["b"] == "fig":
+                fig_pairs.add((b["x"]["k"], flat[k + 1]["x"]["k"]))
+        if flat and flat[-1]["b"] == "fig":
+            fig_last = True
+    return sec_pairs, fig_pairs, fig_last
+
+
 def features(case):
     txt = json.dumps(case["arts"])
     return {"multi_article": len(case["arts"]) > 1, "chapters": any(case["chap"]),
@@ -429,10 +464,12 @@ def run(ctx):
     # ---- P-MC + P-ENUM: the generator
     if quick:
         plans = [("one_full", dict(maxarts=1, maxblocks=1, palette="full", chapters=False)),
+                 ("one_pairs", dict(maxarts=1, maxblocks=1, palette="pairs", chapters=False)),
                  ("two_mini", dict(maxarts=2, maxblocks=1, palette="mini", chapters=True))]
-        nsim, maxblocks = 144, 4
+        nsim, maxblocks = 128, 4
     else:
         plans = [("one_full", dict(maxarts=1, maxblocks=1, palette="full", chapters=False)),
+                 ("one_pairsall", dict(maxarts=1, maxblocks=1, palette="pairsall", chapters=False)),
                  ("one_core2", dict(maxarts=1, maxblocks=2, minblocks=2, palette="core", chapters=False)),
                  ("two_core", dict(maxarts=2, maxblocks=1, palette="core", chapters=True)),
                  ("three_mini", dict(maxarts=3, maxblocks=1, palette="mini", chapters=True))]
@@ -468,6 +505,21 @@ def run(ctx):
     missing = tlc.uncovered_actions(tres, ["Step", "Finish"])
     if missing:
         ctx.machinery("actions never taken in RenderTrace: %s" % missing)
+    # ---- coverage of section boundaries: the exhaustive part must contain every ordered pair
+    # (last block of a section, first block of the next section) of block kinds
+    base_exh, base_all, refined, figpairs, figlast = set(), set(), set(), set(), 0
+    for c in caselist:
+        sp, fp, fl = boundary_pairs(c)
+        for (a, ar), (b, br) in sp:
+            base_all.add((a, b))
+            refined.add((ar, br))
+            if c.get("origin", "").startswith("bfs:"):
+                base_exh.add((a, b))
+        figpairs |= fp
+        figlast += fl
+    want = {(a, b) for a in BASE_KINDS for b in BASE_KINDS}
+    if want - base_exh:
+        ctx.machinery("section-boundary pairs never enumerated in the exhaustive part: %s" % sorted(want - base_exh))
     # ---- evidence
     feats = [features(c) for c in caselist]
     count = lambda k: sum(1 for f in feats if f[k])                         # noqa: E731
@@ -482,6 +534,9 @@ def run(ctx):
         generator_states=states + simgen, generator_transitions=trans + simgen,
         trace_states=tres.distinct, pipeline_states=pres.distinct, trace_selftest_runs=n_self,
         action_coverage={"RenderPipeline": pres.coverage, "Collection": cres.coverage, "RenderTrace": tres.coverage},
+        section_boundary_pairs_exhaustive=len(base_exh & want), section_boundary_pairs_possible=len(want),
+        section_boundary_pairs_all=len(base_all & want), section_boundary_pairs_refined=sorted("%s|%s" % p for p in refined),
+        adjacent_figure_pairs=sorted("%s|%s" % p for p in figpairs), collections_ending_with_figure=figlast,
         odf_words_in_verdict=ODF_WORDS_IN_VERDICT, odf_words_not_in_content_xml_by_construct=odf_lost,
         rule="collections generated by spec/Collection.tla: exhaustive BFS for %s plus -simulate (rich palette, up to 4 articles x %d "
              "blocks, chapters); evaluations = recorded writer runs (5 render paths) validated by TLC against RenderPipeline; "
